@@ -93,6 +93,9 @@ def run_kani(prop, tier, obs, mods, jobs, replay_dir, known_sites):
             }
             if "bounded" in o["meta"]:
                 rec["bounded"] = o["meta"]["bounded"]
+            if o["meta"].get("witness"):
+                # refutation witness of a recorded known finding: not an obligation that the property holds
+                rec["witness"] = True
             expect_fail = o["meta"].get("expect") == "refuted"
             status = r["status"]
             bad_cover = [c for c in r["covers"] if not _cover_ok(c)]
